@@ -181,4 +181,25 @@ theorem strip_single (y : Nat) (t : List Nat) (hy : isStrSpace y = false)
   rw [this]
   exact rstripWith_concat isStrSpace [] t y hy ht
 
+/-- the C white-space skip of `int()` / `float()` (`stripC`), same shape -/
+theorem stripC_core (y x : Nat) (u t : List Nat) (hy : isBytesSpace y = false)
+    (hx : isBytesSpace x = false) (ht : t.all isBytesSpace = true) :
+    stripC (y :: u ++ [x] ++ t) = y :: u ++ [x] := by
+  unfold stripC
+  have : (y :: u ++ [x] ++ t).dropWhile isBytesSpace = y :: u ++ [x] ++ t := by
+    simp [hy]
+  rw [this]
+  exact rstripWith_concat isBytesSpace (y :: u) t x hx ht
+
+/-- C white space is white space for `str.strip()` too -/
+theorem isStrSpace_of_isBytesSpace (c : Nat) (h : isBytesSpace c = true) : isStrSpace c = true := by
+  unfold isStrSpace
+  unfold isBytesSpace at h
+  rw [h]; rfl
+
+theorem not_isBytesSpace_of_not_isStrSpace (c : Nat) (h : isStrSpace c = false) : isBytesSpace c = false := by
+  cases hb : isBytesSpace c
+  · rfl
+  · rw [isStrSpace_of_isBytesSpace c hb] at h; cases h
+
 end Amshan.P1L
